@@ -23,6 +23,9 @@ def build(spec):
     scheme, model, parameters, data = gen_scheme.build(spec)
     for label in spec.get("non_negative") or []:
         parameters.get(label).non_negative = True
+    for label, (lo, hi) in (spec.get("bounds") or {}).items():
+        parameters.get(label).minimum = lo
+        parameters.get(label).maximum = hi
     # the SVDs of data/residual that create_result_data can add are not C13's subject (and dominate the run time)
     scheme.add_svd = bool(spec.get("add_svd", False))
     return scheme, model, parameters, data
